@@ -534,3 +534,4 @@ def bool_ops(eng, callee, a, m, fc):
 from . import ext_std      # noqa: E402,F401  (containers and iterators)
 from . import ext_na       # noqa: E402,F401  (nalgebra / parry)
 from . import ext_simd     # noqa: E402,F401  (simba AutoSimd lanes, parry Qbvh traversal contract)
+from . import ext_kiddo    # noqa: E402,F401  (kiddo k-d tree by contract)
